@@ -66,7 +66,11 @@ CaseClauses(c) ==
            IF NP(c) = 0 THEN EqX(DJ(d.dt) \otimes DJ(d.i), cap0 \otimes DE(36, -1))
            ELSE DEq(DJ(d.dt), DurAt(c, m))),
      Cl("C18.Current", valid /\ shapeOK /\ probed,
-        \A m \in 1..M : ev[2 * m].has_ref => DEq(DJ(ev[2 * m + 1].i), DJ(ev[2 * m].iref))),
+        \* (the reference is solved on a system rebuilt from the projected state: its nodes are numbered differently,
+        \*  so sums of child currents may differ in the last bit - exact class, 1e-9 relative)
+        \A m \in 1..M : ev[2 * m].has_ref =>
+           DLeq(DAbs(DJ(ev[2 * m + 1].i) \ominus DJ(ev[2 * m].iref)),
+                DE(1, -9) \otimes (DAbs(DJ(ev[2 * m + 1].i)) \oplus DAbs(DJ(ev[2 * m].iref))))),
      Cl("C18.LogInitial", valid /\ c.outcome = "ok" /\ probed,
         Len(c.log) >= 1 /\ DIsZero(DJ(c.log[1][1])) /\ SubSeq(c.log[1], 2, 4) = ev[1].ret),
      Cl("C18.LogPrefix", valid /\ c.outcome = "ok" /\ complete /\ probed,
